@@ -48,3 +48,14 @@ CHECKS["C03"] = dict(
     assumptions=E1_ASSUME + ["ground truth = alerts held by the real provider whose end is in the future"],
     units=[dict(pkg="inhibit", test="TestVerifC03", shards_quick=16, shards_thorough=16, budget_quick=60, budget_thorough=900)],
 )
+
+CHECKS["C02"] = dict(
+    level="model_checking",
+    engine="seqx",
+    rule="explicit-state BFS over canonical states of the real Silences+Silencer (store, matcher index, version index, version, per-alert cache, all instants relative to now); events: create/edit/expire, replicated merges (older/newer/expired/past-retention/new id/batch), GC, restart from snapshot, alert GC, Mutes calls, clock advances incl. 'to the next boundary'; states = distinct canonical states, transitions = events executed",
+    technique="explicit-state model checking of the implementation: BFS over the real transition functions with canonical state hashing, brute-force evaluation oracle",
+    level_text="Every reachable state within the depth bound is visited; at every Mutes event and after every history the verdict (bool and marked silence ids) for two alerts is compared with a brute-force evaluation of the raw store dump by an independent matcher evaluator, and Query(active) with a direct scan after every event.",
+    level_note="Bounds: 3 silences (one with two matcher sets), time unit 1s, ends +2/+4, retention 3; depth 6 (quick) / 9 (thorough). Instants where an end equals now are not judged. Pruning is sound because the key is the complete state and the code is deterministic.",
+    assumptions=E1_ASSUME,
+    units=[dict(pkg="silence", test="TestVerifC02Obj", shards_quick=16, shards_thorough=16, budget_quick=90, budget_thorough=1200)],
+)
